@@ -23,6 +23,8 @@ EXTENDS Naturals, TLC
 CONSTANTS MaxBytes,          \* bound on bytes written per direction
           Cuts,              \* subset of {"origin", "transit"}: where the active path may be cut (alternative exists)
           OriginErrorFatal,  \* TRUE: a send attempt in the origin's re-route window aborts the connection
+          AcceptLeavesDeadline, \* FALSE = the code as it is; TRUE = documented counter-example: the accept path leaves a read
+                             \* deadline ("accepted + 60 s") armed on the stream it hands to the application
           MaxNotices,        \* bound on unreachable notices about this connection's addresses
           NoticeEndsStream   \* FALSE = the code as it is: only 'service unknown' (the peer's socket is gone for good) may end
                              \* the stream; TRUE = documented counter-example: a transient notice ('message expired',
@@ -106,6 +108,14 @@ EOF(d) ==
   /\ rEOF' = [rEOF EXCEPT ![d] = TRUE]
   /\ UNCHANGED <<written, avail, read, wClosed, finAvail, rErr, conn, path, cutsLeft, appClosed, notices>>
 
+\* Abstract clock: "more than the accept timeout has passed since the connection was accepted".  A read deadline
+\* that the LIBRARY left armed on the accepted stream (direction "ab" is read by the accepting side) then makes
+\* every Read fail with "deadline exceeded" although the connection is up and the data has arrived.
+DeadlineExpires(d) ==
+  /\ AcceptLeavesDeadline /\ d = "ab" /\ conn = "up" /\ ~rEOF[d] /\ ~rErr[d]
+  /\ rErr' = [rErr EXCEPT ![d] = TRUE]
+  /\ UNCHANGED <<written, avail, read, wClosed, finAvail, rEOF, conn, path, cutsLeft, appClosed, notices>>
+
 \* Conn.Read returning an error other than EOF (connection aborted)
 ReadError(d) ==
   /\ conn = "aborted" /\ ~rEOF[d] /\ ~rErr[d]
@@ -113,7 +123,7 @@ ReadError(d) ==
   /\ UNCHANGED <<written, avail, read, wClosed, finAvail, rEOF, conn, path, cutsLeft, appClosed, notices>>
 
 Progress == (\E d \in Dirs : Transmit(d) \/ EOF(d) \/ ReadError(d) \/ (\E k \in 1..MaxBytes : Read(d, k))) \/ Rerouted
-Next == \/ \E d \in Dirs : (\E k \in 1..MaxBytes : Write(d, k) \/ Read(d, k)) \/ CloseWrite(d) \/ Transmit(d) \/ EOF(d) \/ ReadError(d) \/ Notice(d)
+Next == \/ \E d \in Dirs : (\E k \in 1..MaxBytes : Write(d, k) \/ Read(d, k)) \/ CloseWrite(d) \/ Transmit(d) \/ EOF(d) \/ ReadError(d) \/ Notice(d) \/ DeadlineExpires(d)
         \/ (\E w \in {"origin", "transit"} : Cut(w)) \/ SendError \/ Rerouted \/ Lost
 
 Spec == Init /\ [][Next]_vars /\ WF_vars(Progress)
@@ -122,6 +132,8 @@ Spec == Init /\ [][Next]_vars /\ WF_vars(Progress)
 Prefix == \A d \in Dirs : read[d] <= avail[d] /\ avail[d] <= written[d]
 \* end of stream is seen only after the writing APPLICATION closed and everything it wrote was read
 EOFOnlyAfterAll == \A d \in Dirs : rEOF[d] => (appClosed[d] /\ wClosed[d] /\ read[d] = written[d])
+\* a Read fails only when the connection was aborted: no deadline the application did not set, no spurious error
+NoReadErrorWhileUp == \A d \in Dirs : rErr[d] => conn = "aborted"
 \* the library never closes a writing side on its own while the connection is up
 NoSpontaneousClose == \A d \in Dirs : (wClosed[d] /\ conn = "up") => appClosed[d]
 \* the property's promise "as long as the nodes stay mutually reachable": no abort, everything arrives
